@@ -579,6 +579,26 @@ def leg_rich_js(res, spec):
             res.count('js_rich_table_runs')
             if not (o['input_unchanged'] and o['join_unchanged'] and o['identity_ok'] and o['scribble_safe']) or o['aliased_rows']:
                 res.violation('js:sources-modified:rich-cells:query_table', '[js/query_table] %s (error %r) changed or aliased its sources: %r' % (req['query'], o['error'] and o['error']['msg'][:80], {k: o[k] for k in ('input_unchanged', 'join_unchanged', 'identity_ok', 'scribble_safe', 'aliased_rows')}), {'leg': 'rich-js', 'req': req})
+        # records shorter / longer than the column-name list, under aggregate queries with a star (and plain star queries): whatever the engine does about the
+        # differing widths - fail, pad, warn - the caller's record arrays keep their length and cells
+        sreqs = []
+        for n in range(max(60, spec['n'] // 2)):
+            names = rng.choice([['name', 'qty', 'note'], ['name', 'qty'], None])
+            A = [[rng.choice(['pear', 'plum', 'fig']), rng.choice(['5', '7']), 'n'][:rng.choice([3, 3, 2, 1])] for _ in range(rng.randrange(2, 6))]
+            if names is not None and rng.random() < 0.7:
+                A[0] = (A[0] + ['5', 'n'])[:len(names)]            # the first record as wide as the header
+            q = rng.choice(['select *, count(1) group by a1', 'select a.*, max(a2) group by a1', 'select count(*), *', 'select *, count(1) where a1 != "fig" group by a1', 'select *', 'select a.*, NR where a2 == "5"',
+                            'select *, sum(a2)', 'select a1, *, count(1) group by a1'] + (['select *, count(1) group by a.name', 'select a.*, min(a.qty) group by a.name'] if names else []))
+            sreqs.append({'query': q, 'input': A, 'join': None, 'input_cols': names, 'join_cols': None})
+        outs = node.call({'op': 'query_batch', 'cases': sreqs})['results']
+        for req, o in zip(sreqs, outs):
+            res.evaluations += 1
+            res.count('js_ragged_star_aggregate_runs')
+            res.count('js_ragged_star_aggregate_runs_failing' if o['error'] else 'js_ragged_star_aggregate_runs_succeeding')
+            res.nontrivial('js-ragged-star', req['query'], json.dumps(req['input']), json.dumps(req['input_cols']))
+            if not (o['input_unchanged'] and o['identity_ok'] and o['scribble_safe']) or o['aliased_rows']:
+                res.violation('js:sources-modified:ragged-records-under-star', '[js/query_table] %s over %s (names %r, error %r) changed or aliased its source: %r' % (
+                    req['query'], json.dumps(req['input']), req['input_cols'], o['error'] and o['error']['msg'][:80], {k: o[k] for k in ('input_unchanged', 'identity_ok', 'scribble_safe', 'aliased_rows')}), {'leg': 'ragged-star-js', 'req': req})
     finally:
         node.close()
 
@@ -678,7 +698,7 @@ def run_shard(spec, res):
 def summarize(tier, seed, m):
     return {
         'rule': 'the query generators of C01-C05 (every query shape) plus deliberately failing variants (syntax error, parsing error, runtime error, unknown join table), each executed (1) through rbql.query with probes and snapshots, (2) through the icontract-armed query_table, (3) with the CSV writer attached to list input, (3b) with no input iterator at all - the table named in a FROM clause and taken from the ListTableRegistry of the caller -, (4) on the JS engine with array snapshots; list tables with numbers, None and mutable list-valued cells under %d query texts (stars, UNNEST, every aggregate, list arithmetic and methods, UPDATE, joins) through query_table, the CSV writer as sink, a mutating probe sink and pandas object columns, compared with fully deep snapshots; pandas dataframes with deep copies (values, dtypes, labels, index values, index / column level names, attrs; the index named, named like a column, two-level, non-default); a file-backed sqlite database with recording connection, authorizer log, total_changes and file hash under %d hostile table identifiers (in the query text, as input table, and passed directly to SqliteRecordIterator); query_csv with file fingerprints and an audit-hook log of every open() (one run in five with the input path spelled relatively / through .., and the output path naming the directory that holds the input, in several spellings, or a path below a missing directory); the CLI under strace. distinct_nontrivial = distinct executed (query, source) cases.' % (len(RICH_QUERIES), len(HOSTILE_IDS)),
-        'required': ['from_clause_registry_runs', 'js_column_name_array_checks', 'list_runs_with_header_modifier', 'csv_runs_with_directory_or_odd_output_path', 'rich_cases_with_tuple_rows', 'js_rich_csv_sink_runs_succeeding', 'js_rich_table_runs', 'rich_runs_failing', 'rich_runs_succeeding', 'rich_runs:csv-writer-quoted', 'rich_runs:query+mutating-sink', 'rich_runs:pandas', 'list_runs_failing', 'list_runs_succeeding', 'contract_evaluations', 'csv_writer_on_list_runs', 'column_name_list_checks', 'wrong_length_column_name_list_runs', 'pandas_runs_succeeding', 'pandas_runs_failing', 'pandas_runs_non_string_labels', 'pandas_runs_non_default_index', 'sqlite_runs_hostile', 'sqlite_runs_with_open_transaction', 'sqlite_sql_statements_observed', 'sqlite_authorizer_events', 'sqlite_direct_constructor_runs', 'csv_runs_succeeding', 'csv_runs_failing', 'csv_open_events_observed', 'strace_cli_runs', 'strace_opens_of_sources_observed', 'js_cases'],
+        'required': ['js_ragged_star_aggregate_runs_failing', 'js_ragged_star_aggregate_runs_succeeding', 'from_clause_registry_runs', 'js_column_name_array_checks', 'list_runs_with_header_modifier', 'csv_runs_with_directory_or_odd_output_path', 'rich_cases_with_tuple_rows', 'js_rich_csv_sink_runs_succeeding', 'js_rich_table_runs', 'rich_runs_failing', 'rich_runs_succeeding', 'rich_runs:csv-writer-quoted', 'rich_runs:query+mutating-sink', 'rich_runs:pandas', 'list_runs_failing', 'list_runs_succeeding', 'contract_evaluations', 'csv_writer_on_list_runs', 'column_name_list_checks', 'wrong_length_column_name_list_runs', 'pandas_runs_succeeding', 'pandas_runs_failing', 'pandas_runs_non_string_labels', 'pandas_runs_non_default_index', 'sqlite_runs_hostile', 'sqlite_runs_with_open_transaction', 'sqlite_sql_statements_observed', 'sqlite_authorizer_events', 'sqlite_direct_constructor_runs', 'csv_runs_succeeding', 'csv_runs_failing', 'csv_open_events_observed', 'strace_cli_runs', 'strace_opens_of_sources_observed', 'js_cases'],
         'assumptions': ['hostile identifiers are only required not to reach sqlite and not to change the database; the error class they produce is not demanded', 'sqlite3.connect itself opens the database file read-write; the file hash (not the open mode) decides for sqlite'],
     }
 
